@@ -1151,7 +1151,9 @@ func (w *world) raceCase(c *hx.Ctx, kind string, attempts int) {
 		must(err)
 		for i := 0; i < attempts && oracle == ""; i++ {
 			contents, err := rootDirectory.ReadContents()
-			must(err)
+			if err != nil {
+				continue // a listing that fails under the concurrent exchange is contained, not an escape
+			}
 			for _, e := range contents {
 				if e.Mode&filesystem.ModeTypeMask != filesystem.ModeTypeDirectory {
 					continue
